@@ -21,6 +21,8 @@ Inductive act :=
 | ANoEmit               (* return nil without emitting *)
 | AFinish               (* return out.Finish() *)
 | AEmitFinish           (* out.Emit, then return out.Finish() *)
+| AFinishIgnored        (* out.Finish() with its error dropped, then return nil *)
+| AEmitFinishIgnored    (* out.Emit, out.Finish() with its error dropped, return nil *)
 | AFail (f : failure).  (* return an error / panic *)
 
 Record turn := { t_logs : list logmsg; t_act : act; t_value : Z; t_meta : kvlist }.
@@ -105,6 +107,9 @@ Definition run_turn (m : mode) (t : turn) (s : Z) : tres :=
   | ANoEmit => TFail e_no_data
   | AFinish => match m with Producer => TStop (turn_logs t) | Exchange => TFail e_finish_exchange end
   | AEmitFinish => match m with Producer => TStop (turn_logs t ++ [data_frame t s]) | Exchange => TFail e_finish_exchange end
+  (* a refused Finish leaves the collector untouched: the exchange turn is judged as if Finish had not been called *)
+  | AFinishIgnored => match m with Producer => TStop (turn_logs t) | Exchange => TFail e_no_data end
+  | AEmitFinishIgnored => match m with Producer => TStop (turn_logs t ++ [data_frame t s]) | Exchange => TCont (turn_logs t ++ [data_frame t s]) end
   | AFail f => TFail (turn_exc f)
   end.
 
